@@ -256,6 +256,48 @@ int main(int argc, char **argv)
 		}
 	}
 	cb_pubkey = KPUB[2];
+	if (!strcmp(a.mode, "size")) {
+		/* size sweep: one string claim grows so that header.payload (the signing input) and the token take every length in a window
+		 * around the sizes an implementation plausibly uses for fixed buffers; three header lengths cover every residue mod 4 */
+		static const int M[] = { 64, 128, 256, 512, 1000, 1024, 2048, 4096, 8192, 16384, 65536 };
+		static const char *HX[3] = { NULL, "1", "12" };
+		long h = 5000000;
+		for (size_t mi = 0; mi < sizeof(M) / sizeof(M[0]); mi++)
+			for (int kk = 0; kk < 3; kk++)		/* unsigned, HS256, ES256 */
+				for (int hx = 0; hx < 3; hx++)
+					for (int d = -9; d <= 9; d++, h++) {
+						/* payload {"data":"x*N"} is N+11 bytes; N such that 4/3 of it lands around M minus the header part (19..40 chars) */
+						long N = ((long)(M[mi] - 30) * 3) / 4 - 11 + d;
+						jwt_builder_t *b;
+						jwt_value_t v;
+						char *s;
+						int rc;
+						if (N < 0 || !vh_mine(&a, h)) continue;
+						if (M[mi] > 8192 && kk != (int)(mi % 3)) continue;
+						vh_case_begin(h, "\"mode\":\"size\",\"N\":%ld", N);
+						vh_set_prov((int)(h & 1));
+						b = jwt_builder_new();
+						printf("[\"N\",%ld]\n", h);
+						rc = jwt_builder_enable_iat(b, 0); printf("[\"I\",%ld,0,%d]\n", h, rc);
+						if (kk) {
+							int k = kk == 1 ? 0 : 2;
+							rc = jwt_builder_setkey(b, (jwt_alg_t)KALG[k], KPRIV[k]);
+							printf("[\"Y\",%ld,\"%s\",%d,%d]\n", h, KSPEC[k], KALG[k], rc);
+						}
+						if (HX[hx]) {
+							jwt_set_SET_STR(&v, "x", HX[hx]); rc = jwt_builder_header_set(b, &v);
+							printf("[\"S\",%ld,\"h\",%d,\"x\",\"\\\"%s\\\"\",0,%d]\n", h, JWT_VALUE_STR, HX[hx], rc);
+						}
+						s = malloc((size_t)N + 3); s[0] = '"'; memset(s + 1, 'x', (size_t)N); s[N + 1] = 0;
+						jwt_set_SET_STR(&v, "data", s + 1); rc = jwt_builder_claim_set(b, &v);
+						s[N + 1] = '"'; s[N + 2] = 0;
+						printf("[\"S\",%ld,\"c\",%d,\"data\",", h, JWT_VALUE_STR); vh_put_jstr(stdout, s); printf(",0,%d]\n", rc);
+						free(s);
+						op_generate(h, b, NULL);
+						jwt_builder_free(b);
+					}
+		goto done;
+	}
 	for (long h = 0; h < a.n; h++) {
 		if (!vh_mine(&a, h)) continue;
 		vh_rng_seed(&rng, a.seed, 4000000 + (uint64_t)h);
@@ -263,6 +305,7 @@ int main(int argc, char **argv)
 		vh_set_prov((int)(h & 1));
 		history(h, 3 + (int)vh_below(&rng, 14));
 	}
+done:
 	jwks_free(kset);
 	for (int k = 0; k < NK; k++) vh_key_free(&K[k]);
 	return 0;
